@@ -809,6 +809,8 @@ impl TxPoolService {
             attached.extend(blk.transactions().into_iter().skip(1));
         }
         let retain: Vec<TransactionView> = detached.difference(&attached).cloned().collect();
+        let detached_ids: Vec<ProposalShortId> =
+            retain.iter().map(|tx| tx.proposal_short_id()).collect();
 
         let fetched_cache = self.fetch_txs_verify_cache(retain.iter()).await;
 
@@ -833,6 +835,14 @@ impl TxPoolService {
             // notice: readd_detached_tx don't update cache
             self.readd_detached_tx(&mut tx_pool, retain, fetched_cache)
                 .await;
+        }
+
+        // A copy of a committed transaction that was relayed again sits in the orphan pool (its
+        // inputs were spent). Once the block is detached that copy is stale: the transaction is
+        // either back in the pool or could not be re-added; nothing would ever retry the orphan.
+        if !detached_ids.is_empty() {
+            let mut orphan = self.orphan.write().await;
+            orphan.remove_orphan_txs(detached_ids.into_iter());
         }
 
         self.remove_orphan_txs_by_attach(&attached).await;
